@@ -55,16 +55,6 @@ func msgNonce(m *message.Message) (uint64, bool) {
 	return d.DepositNonce, true
 }
 
-func collect(m map[uint8][]*message.Message, into map[uint8][]uint64) {
-	for k, l := range m {
-		for _, x := range l {
-			if n, ok := msgNonce(x); ok {
-				into[k] = append(into[k], n)
-			}
-		}
-	}
-}
-
 // guarded runs f; a panic is reported as "panic".
 func guarded(f func() (*message.Message, error, bool)) (out string, dest uint8) {
 	defer func() {
@@ -179,6 +169,7 @@ func depositLog(d Dep, nonce uint64, blk uint64) ethTypes.Log {
 type evmClient struct {
 	depositLogs []ethTypes.Log
 	retryLogs   []ethTypes.Log
+	retryV2Logs []ethTypes.Log
 	receipts    map[common.Hash]*ethTypes.Receipt
 }
 
@@ -188,6 +179,8 @@ func (c *evmClient) FetchEventLogs(ctx context.Context, a common.Address, ev str
 		return c.depositLogs, nil
 	case string(evmevents.RetryV1Sig):
 		return c.retryLogs, nil
+	case string(evmevents.RetryV2Sig):
+		return c.retryV2Logs, nil
 	}
 	return nil, nil
 }
@@ -238,6 +231,7 @@ func measureEvm(d Dep, nonce uint64, retry bool) DepObs {
 }
 
 func driveEvm(c Case) Obs {
+	rg := getRig()
 	o := Obs{Deps: make([][]DepObs, len(c.Events))}
 	retry := c.Path == "EvmRetryV1"
 	nonce := uint64(0)
@@ -274,29 +268,56 @@ func driveEvm(c Case) Obs {
 			}
 		}
 	}
-	got := map[uint8][]uint64{}
 	l := evmevents.NewListener(cl)
 	dh := newEthDepositHandler()
+	ch := make(chan []*message.Message, 512)
+	var err error
 	if retry {
-		ch := make(chan []*message.Message, 512)
-		h := eventHandlers.NewRetryV1EventHandler(zerolog.Nop().With(), l, dh, ps, bridgeAddr, sourceDomain, big.NewInt(5), ch)
-		err := h.HandleEvents(big.NewInt(100), big.NewInt(105))
-		o.Failed = err != nil
-		close(ch)
-		for ms := range ch {
-			if len(ms) > 0 {
-				collect(map[uint8][]*message.Message{ms[0].Destination: ms}, got)
+		err = eventHandlers.NewRetryV1EventHandler(zerolog.Nop().With(), l, dh, ps, bridgeAddr, sourceDomain, big.NewInt(5), ch).HandleEvents(big.NewInt(100), big.NewInt(105))
+	} else {
+		err = eventHandlers.NewDepositEventHandler(l, dh, bridgeAddr, sourceDomain, ch).HandleEvents(big.NewInt(100), big.NewInt(105))
+	}
+	o.Failed = err != nil
+	consume(&o, ch, sameNonce)
+	if o.Crashed {
+		return o
+	}
+	// the third EVM handler that feeds the message channel: retry requests (RetryV2), one per event;
+	// what it pushes goes through the relayer too (nothing of it is part of the groups)
+	cl.retryV2Logs = retryV2Logs(c)
+	ch2 := make(chan []*message.Message, 512)
+	_ = eventHandlers.NewRetryV2EventHandler(zerolog.Nop().With(), l, bridgeAddr, sourceDomain, ch2).HandleEvents(big.NewInt(100), big.NewInt(105))
+	if _, ok := rg.routeAll(pushed(rg, ch2)); !ok {
+		o.Crashed, o.Note = true, "Relayer.route did not finish (retry v2)"
+	}
+	return o
+}
+
+var retryABI = func() abi.ABI {
+	a, err := abi.JSON(strings.NewReader(consts.RetryABI))
+	if err != nil {
+		panic(err)
+	}
+	return a
+}()
+
+// retryV2Logs: one well-formed retry request per event of the case plus logs whose data is the
+// calldata of the case's deposits (does not unpack / unpacks to anything).
+func retryV2Logs(c Case) []ethTypes.Log {
+	var out []ethTypes.Log
+	for i, e := range c.Events {
+		data, err := retryABI.Events["Retry"].Inputs.NonIndexed().Pack(uint8(3+i), uint8(2), big.NewInt(int64(10+i)), [32]byte{31: 1})
+		if err != nil {
+			panic(err)
+		}
+		out = append(out, ethTypes.Log{Address: bridgeAddr, Topics: []common.Hash{evmevents.RetryV2Sig.GetTopic()}, Data: data})
+		for _, d := range e.Deps {
+			if b, err := hex.DecodeString(d.Data); err == nil {
+				out = append(out, ethTypes.Log{Address: bridgeAddr, Topics: []common.Hash{evmevents.RetryV2Sig.GetTopic()}, Data: b})
 			}
 		}
-	} else {
-		ch := make(chan []*message.Message, 512)
-		h := eventHandlers.NewDepositEventHandler(l, dh, bridgeAddr, sourceDomain, ch)
-		m, err := h.ProcessDeposits(big.NewInt(100), big.NewInt(105))
-		o.Failed = err != nil
-		collect(m, got)
 	}
-	o.Groups = sortedGroups(got)
-	return o
+	return out
 }
 
 // =====================================================================================================
@@ -370,6 +391,7 @@ func measureSub(d Dep, nonce uint64) DepObs {
 }
 
 func driveSub(c Case) Obs {
+	getRig()
 	o := Obs{Deps: make([][]DepObs, len(c.Events))}
 	retry := c.Path == "SubRetry"
 	conn := &subConn{blocks: map[uint64][]*parser.Event{}}
@@ -402,25 +424,15 @@ func driveSub(c Case) Obs {
 			conn.range_ = append(conn.range_, evs...)
 		}
 	}
-	got := map[uint8][]uint64{}
 	ch := make(chan []*message.Message, 512)
+	var err error
 	if retry {
-		h := sublistener.NewRetryEventHandler(zerolog.Nop().With(), conn, newSubDepositHandler(), sourceDomain, ch)
-		err := h.HandleEvents(big.NewInt(100), big.NewInt(105))
-		o.Failed = err != nil
-		close(ch)
-		for ms := range ch {
-			if len(ms) > 0 {
-				collect(map[uint8][]*message.Message{ms[0].Destination: ms}, got)
-			}
-		}
+		err = sublistener.NewRetryEventHandler(zerolog.Nop().With(), conn, newSubDepositHandler(), sourceDomain, ch).HandleEvents(big.NewInt(100), big.NewInt(105))
 	} else {
-		h := sublistener.NewFungibleTransferEventHandler(zerolog.Nop().With(), sourceDomain, newSubDepositHandler(), ch, conn)
-		m, err := h.ProcessDeposits(big.NewInt(100), big.NewInt(105))
-		o.Failed = err != nil
-		collect(m, got)
+		err = sublistener.NewFungibleTransferEventHandler(zerolog.Nop().With(), sourceDomain, newSubDepositHandler(), ch, conn).HandleEvents(big.NewInt(100), big.NewInt(105))
 	}
-	o.Groups = sortedGroups(got)
+	o.Failed = err != nil
+	consume(&o, ch, sameNonce)
 	return o
 }
 
@@ -491,10 +503,11 @@ func measureBtc(d Dep, idx uint64) DepObs {
 }
 
 func driveBtc(c Case) Obs {
+	getRig()
 	o := Obs{Deps: make([][]DepObs, len(c.Events))}
 	conn := &btcConn{}
 	res, feeAddr := btcSetup()
-	ch := make(chan []*message.Message, 16)
+	ch := make(chan []*message.Message, 512)
 	h := btclistener.NewFungibleTransferEventHandler(zerolog.Nop().With(), sourceDomain, btclistener.NewBtcDepositHandler(), ch, conn, res, feeAddr)
 	idx := uint64(0)
 	back := map[uint64]uint64{} // the real nonce (hash of block number and tx hash) -> index in the case
@@ -513,17 +526,10 @@ func driveBtc(c Case) Obs {
 			conn.txs = append(conn.txs, tx)
 		}
 	}
-	m, err := h.ProcessDeposits(big.NewInt(100))
+	err := h.HandleEvents(big.NewInt(100))
 	o.Failed = err != nil
-	real := map[uint8][]uint64{}
-	collect(m, real)
-	got := map[uint8][]uint64{}
-	for k, l := range real {
-		for _, n := range l {
-			got[k] = append(got[k], back[n]) // an unknown nonce maps to 0, which no deposit has
-		}
-	}
-	o.Groups = sortedGroups(got)
+	// an unknown nonce maps to 0, which no deposit has
+	consume(&o, ch, func(n uint64) uint64 { return back[n] })
 	return o
 }
 
